@@ -2,8 +2,8 @@
 from props import element_common as ec
 
 NAMESPACE = 'C08'
-LEAN_TARGETS = ['MxV.Props.C08']
-THEOREMS = ['str_stays_str', 'int_stays_int', 'decimal_comes_back_float', 'value_error_propagates', 'ladder_result_is_valid']
+LEAN_TARGETS = ['MxV.Props.C08', 'MxV.Props.C16']
+THEOREMS = ['str_stays_str', 'int_stays_int', 'decimal_comes_back_float', 'value_error_propagates', 'ladder_result_is_valid', 'C16.to_string_decodes', 'C16.to_string_injective']
 TRUSTED_BASE = ['Lean 4.33.0 kernel', 'axioms: propext, Quot.sound, Classical.choice only (audited per theorem)',
                 'translator extract/*.py (attribute / validator / template tables regenerated every run)',
                 'correspondence harness: real XMLElement trees vs the Lean models Element, Values, Serialize, Parser, Mfull through mxdriver',
